@@ -41,7 +41,6 @@ WHY = {  # finding id (or prefix) -> why it is listed instead of repaired
  "C13-funvec-shape-stale-after-regrid": "invalidating the cached funvec_shape interacts with geometry equality (derived attribute compared in _all_values_equal)",
  "C13-step-empty-when-nsteps-is-ngrid-minus-1": "needs tolerance- or index-based interval membership; test_stepExpansion_fun2par compares with raw float inequalities",
  "C14-legacy-cwmh-overwrites-previous-state": "test_CWMH_regression_* pin the shifted chain",
- "C17-heat-single-observation-point-0d": "TimeDependentLinearPDE.observe squeezes a (1 point x 1 time) observation to 0-d by design of its final squeeze(); keeping a length-one vector (tried: np.atleast_1d) changes the PDE-level output shape that the C18 reference follows for custom observation maps - left as a finding",
  "C19-duplicate-variable-names": "would have to refuse duplicate variable names or key arviz dictionaries by index",
  "C19-rhat-funvec-dim-differs": "needs variable names taken from the row count for function-value samples, or a refusal",
 }
